@@ -167,7 +167,15 @@ fn candidate<B: Backend, P: Prims>(rep: &mut Report, k: Kind, label: &str, b: &[
     }
     if let Ok(enc) = got {
         rep.count(&format!("{}.{:?}.accepted", B::NAME, k));
-        // re-encoding: identity for fixed-format keys, idempotent for v1 (DER or PEM in, DER out)
+        // re-encoding: identity for fixed-format keys; v1 (DER or PEM in): the canonical DER of that key as an
+        // independent parser writes it (CRT values recomputed, not copied from the input)
+        if B::VER == 1 && matches!(k, Kind::Secret | Kind::PkeSecret) {
+            if let Some(canon) = rsapool::canonical_secret(b) {
+                if enc != canon {
+                    rep.violation(&format!("C08|{}|{:?}|encoding-not-canonical", B::NAME, k), detail(&format!("accepted key serialises to {} ({} bytes), canonical PKCS#1 is {} ({} bytes)", hx_short(&enc), enc.len(), hx_short(&canon), canon.len())));
+                }
+            }
+        }
         if B::VER != 1 && enc != b {
             rep.violation(&format!("C08|{}|{:?}|reencoding-differs", B::NAME, k), detail(&format!("accepted bytes re-encode to {}", hx_short(&enc))));
         }
